@@ -41,6 +41,22 @@ class MethodFacts:
         return out
 
 
+class _MethodTable(dict):
+    """facts of the Weaver methods by name; reading the facts of a method the evaluator could not follow (an uninterpreted construct on its way) is an
+    analysis error, whatever rule asks - never a basis for a verdict"""
+
+    def __getitem__(self, name):
+        mf = dict.__getitem__(self, name)
+        if getattr(mf, 'issues', None):
+            raise AnalysisError(f"Weaver.{name} not canonicalisable: {mf.issues[:3]}")
+        return mf
+
+    def get(self, name, default=None):
+        if name not in self:
+            return default
+        return self[name]
+
+
 class WeaverModel:
     def __init__(self, prog: Program):
         self.prog = prog
@@ -52,7 +68,7 @@ class WeaverModel:
             'original_x': arr_param('self.original_x', length=self.Lo), 'original_y': arr_param('self.original_y', length=self.Lo),
             'x_scale': Num(sym.sym('self.x_scale')), 'y_scale': Num(sym.sym('self.y_scale')),
         }
-        self.methods: Dict[str, MethodFacts] = {}
+        self.methods: Dict[str, MethodFacts] = _MethodTable()
         self.public = [m for n, m in self.cls.methods.items() if not m.is_static]
         for m in self.public:
             if m.name == '__init__':
@@ -125,6 +141,7 @@ class WeaverModel:
         calls = [e for e in ev.events if e.kind in ('call', 'lib', 'apply', 'method')]
         mf = MethodFacts(fi, ev, res, args, stores, raises, calls, list(ev.issues))
         mf.obj = obj
+        mf.initial_fields = {} if is_init else dict(self.fields)
         mf.final_fields = dict(st.heap.get(oid, {}))
         return mf
 
